@@ -1,7 +1,8 @@
 #!/bin/bash
 # tools/run_all.sh [tier] [seed]: runs every claimed check, validates evidence against the schema, prints a summary line per check.
 TIER=${1:-quick}; SEED=${2:-1}
-cd /verif
+ROOT="$(cd "$(dirname "${BASH_SOURCE[0]}")/.." && pwd)"
+cd "$ROOT"
 fail=0
 for p in $(python3 -c "import json;print(' '.join(c['property_id'] for c in json.load(open('MANIFEST.json'))['checks']))"); do
   t0=$(date +%s)
@@ -10,7 +11,7 @@ for p in $(python3 -c "import json;print(' '.join(c['property_id'] for c in json
   v=$(python3-vt -c "
 import json,jsonschema,sys
 try:
-    jsonschema.validate(json.load(open('/verif/evidence/$p.json')),json.load(open('/root/.vp/EVIDENCE.schema.json'))); print('evidence-ok')
+    jsonschema.validate(json.load(open('$ROOT/evidence/$p.json')),json.load(open('/root/.vp/EVIDENCE.schema.json'))); print('evidence-ok')
 except Exception as e: print('EVIDENCE-INVALID', str(e)[:100])
 ")
   echo "$p rc=$rc ${v} $((t1-t0))s $(grep -c '^VIOLATION' /tmp/runall_$p.log) violations $(grep -c '^KNOWN-FINDING' /tmp/runall_$p.log) known"
